@@ -15,7 +15,14 @@ import (
 // Rand is splitmix64: every random choice of a run derives from one seed.
 type Rand struct{ s uint64 }
 
-func NewRand(seed uint64) *Rand { return &Rand{s: seed*0x9E3779B97F4A7C15 + 0x1234567} }
+// NewRand mixes the seed through two splitmix rounds so that the streams of neighbouring seeds are unrelated
+// (with a linear seeding, seeds 1, 2, 3 would be the same stream shifted by one draw).
+func NewRand(seed uint64) *Rand {
+	r := &Rand{s: seed*0x9E3779B97F4A7C15 + 0x1234567}
+	a := r.U64()
+	b := r.U64()
+	return &Rand{s: a ^ (b << 1) ^ 0xD1B54A32D192ED03}
+}
 func (r *Rand) U64() uint64 {
 	r.s += 0x9E3779B97F4A7C15
 	z := r.s
